@@ -14,7 +14,8 @@ ENVS = ['ant', 'halfcheetah', 'hopper', 'humanoid', 'humanoidstandup',
 BACKENDS = ['generalized', 'spring', 'positional']
 RULE = ('all 11 registered physics environments x {generalized, spring, '
         'positional} (construction ValueError = backend unsupported, '
-        'recorded); quick tier: a seed-rotated third of the combinations, '
+        'recorded); quick tier: all combinations of the 7 cheap environments '
+        'and a seed-rotated third of ant/humanoid/humanoidstandup/pusher, '
         '200 steps x batch 8; thorough: all, 1000 steps x batch 32; uniform '
         'and bang-bang action sequences through training.wrap. One event = '
         'one step of one rollout checked (finite, unit quaternions), or one '
@@ -30,7 +31,7 @@ ASSUMPTIONS = [
 
 
 def config(tier):
-  return {'workers': 11 if tier == 'quick' else 14,
+  return {'workers': 14,
           'job_timeout': 1500 if tier == 'quick' else 5000, 'wall_cap': 14000}
 
 
@@ -41,7 +42,11 @@ def combos():
 def plan(tier, seed):
   cs = combos()
   if tier == 'quick':
-    cs = [c for i, c in enumerate(cs) if (i + i // 3 + seed) % 3 == 0]
+    # every combination of the environments that compile quickly, and a
+    # seed-rotated third of the expensive ones
+    expensive = ('ant', 'humanoid', 'humanoidstandup', 'pusher')
+    cs = [c for i, c in enumerate(cs)
+          if c[0] not in expensive or (i + i // 3 + seed) % 3 == 0]
     steps, batch = 200, 8
   else:
     steps, batch = 1000, 32
@@ -55,12 +60,14 @@ def plan(tier, seed):
 
 def floors(tier):
   q = tier == 'quick'
-  return {'ev:step_finite_and_unit': (200 * 2 * 8) if q else 1000 * 2 * 28,
-          'ev:sizes_match_declared': 8 if q else 28,
-          'ev:reset_done_zero': 8 if q else 28,
-          'ev:deterministic': 16 if q else 56,
-          'ev:restep_reproduces': 8 if q else 28,
-          'combinations_supported': 8 if q else 28}
+  return {'ev:step_finite_and_unit': (200 * 3 * 8 * 20) if q else (
+      1000 * 3 * 28),
+          'ev:reset_state_finite_and_unit': 20 if q else 28,
+          'ev:sizes_match_declared': 20 if q else 28,
+          'ev:reset_done_zero': 20 if q else 28,
+          'ev:deterministic': 40 if q else 56,
+          'ev:restep_reproduces': 20 if q else 28,
+          'combinations_supported': 20 if q else 28}
 
 
 def run(job, mon):
@@ -129,6 +136,14 @@ def run(job, mon):
             float(jp.abs(s0.done).max()) == 0.0
             and bool(jp.isfinite(s0.obs).all()),
             lambda: wit(done=np.asarray(s0.done)))
+  # the reset state itself (also what auto-reset hands back later)
+  rn = float(jp.abs(jp.linalg.norm(s0.pipeline_state.x.rot, axis=-1)
+                    - 1).max())
+  mon.err('unit_quaternion_at_reset:%s' % backend, rn)
+  mon.check('reset_state_finite_and_unit',
+            rn <= 1e-4 and bool(jp.isfinite(s0.pipeline_state.q).all())
+            and bool(jp.isfinite(s0.pipeline_state.qd).all()),
+            lambda: wit(quat_norm_err=rn))
   # reset is a pure function of the key
   s0b = reset(keys)
   mon.check('deterministic',
@@ -145,11 +160,21 @@ def run(job, mon):
             and tuple(s1.obs.shape) == (nb, obs_size),
             lambda: wit(what='step twice from the same saved state'))
 
-  for mode in ('uniform', 'bang'):
+  for mode in ('uniform', 'bang', 'held'):
     if mode == 'uniform':
       acts = rng.uniform(-1, 1, (nsteps, nb, env.action_size))
-    else:
+    elif mode == 'bang':
       acts = rng.choice([-1.0, 1.0], (nsteps, nb, env.action_size))
+    else:
+      # bang-bang held for long stretches (member 0: for the whole rollout):
+      # the sequences that spin joints up the most
+      acts = np.zeros((nsteps, nb, env.action_size))
+      for b in range(nb):
+        t = 0
+        while t < nsteps:
+          hold = nsteps if b == 0 else int(rng.integers(10, 200))
+          acts[t:t + hold, b] = rng.choice([-1.0, 1.0], env.action_size)
+          t += hold
     acts = jp.array(acts, dtype=jp.float32)
     fobs, fq, (fin, nrm, dones, qdmax, obs, rew, done) = roll(keys, acts)
     fin, nrm = np.asarray(fin), np.asarray(nrm)
